@@ -394,13 +394,19 @@ def sweep_variants(plan, twin, tier):
 def matrix_plans(tree, seed, tier):
     """Plans whose probe carries every API fragment and is built, in both packagings, under all six
     compiler x standard configurations (the incidental sample of C20's toolchain clause)."""
-    n = 1 if tier == "quick" else 12
+    n = 2 if tier == "quick" else 12
     tcs = all_toolchains()
     plans = []
     for i in range(n):
         rng = rng_for(seed, "matrix", i)
         units = rng.sample(tree.units, min(3 if tier == "quick" else rng.choice((2, 4, 6)), len(tree.units)))
         consts = rng.sample(tree.constants, min(1 if i % 2 == 0 else 2, len(tree.constants)))
+        # every other one is the plain case: the default package, the umbrella header first and
+        # au/io.hh after it (what a program that just includes the library looks like); the rest
+        # have a selection and a seeded include order
+        plain = i % 2 == 1
+        if plain:
+            units, consts = [], []
         plans.append({
             "seed": seed,
             "run": "matrix-%d" % i,
@@ -409,7 +415,7 @@ def matrix_plans(tree, seed, tier):
             "env": {"listdir": {}, "listdir_default": _listdir_spec(rng), "extra_entries": {}, "clock": ["2026-09-26T12:00:00"], "git": "ok:matrix", "stdout_mode": "block", "stdout_bufsize": 4096, "crlf": False},
             "faults": [],
             "toolchain": {"a": list(tcs[i % len(tcs)]), "matrix": True},
-            "probe": {"include_order": rng.randrange(1 << 30), "api": apisurface.names(), "user_macros": i % 2 == 0},
+            "probe": {"include_order": None if plain else rng.randrange(1 << 30), "api": apisurface.names(), "user_macros": i % 2 == 0},
         })
     return plans
 
